@@ -15,6 +15,9 @@ import (
 func c10CoqOp(op c10Op) string {
 	switch op.Op {
 	case "sub":
+		if op.C {
+			return "OSubDone " + hx.CoqBool(op.P)
+		}
 		return "OSub " + hx.CoqBool(op.P)
 	case "batch":
 		return fmt.Sprintf("OBatch %d", op.K)
@@ -112,7 +115,7 @@ func main() {
 		Header:   "From Kit Require Import C10.Check.\nOpen Scope Z_scope.",
 		CaseType: "case",
 		CheckFn:  "run_cases",
-		Shard:    40,
+		Shard:    46,
 		Gen:      c10Gen,
 		RunInput: func(ctx *core.Ctx, raw json.RawMessage) error {
 			var in c10Input
